@@ -35,7 +35,8 @@ def st_garbage():
 
     def dmg(args):
         ints, ops = args
-        text, _ = bibgen.render(bibgen.gen_document(ints))
+        # half of the documents draw their field keys from a small pool, so that entries repeating a field key get damaged too
+        text, _ = bibgen.render(bibgen.gen_document(ints, fkey_pool=["a", "b", "title", "A"] if ints[0] % 2 else None))
         it = iter(ops)
 
         def draw_int(lo, hi):
